@@ -716,8 +716,12 @@ def hostile_string(rng, names, canary, valid_pool):
         return "bytes", b.decode(codec, errors)
     if r < 0.40:
         s = rng.choice(SNIPPETS).format(canary=canary)
-        if rng.random() < 0.4:
+        q = rng.random()
+        if q < 0.35:
             s = rng.choice(("2 m * ", "2 ", "(", "m ** ", "- ", "3 km + ", "")) + s + rng.choice(("", " m", " * 2", ")", " ** 2"))
+        elif q < 0.6:
+            # trigger-like prefixes: a single foreign character or a keyword-looking tag
+            s = rng.choice(tuple(HOSTILE_CHARS) + ("eval ", "eval:", "py:", "python:", "exec ", "!!", "$(", "`", "{{", "%%", "=", "==", ">>> "))                 + s + rng.choice(("", "", ")", "`", "}}"))
         return "snippet", s
     if r < 0.55:
         k = rng.randint(1, 4)
